@@ -60,7 +60,7 @@ func mutateXML(t *rapid.T, doc []byte) []byte {
 	return b
 }
 
-var argPieces = []string{"a", "b", "k", "list", "", ".", "..", "[", "]", "[0]", "[1]", "[-1]", "[99999999999]", "[x]", "[]", "*", ":", "::", "!", "!:", ":*", ":x", "x:", "-", "#text", " ", "a.b", "a[0", "0]", "|", ":bool", ":num", ":string", "true:bool", "1e999:num", "\x00", "é"}
+var argPieces = []string{"a", "b", "k", "list", "", ".", "..", "[", "]", "[0]", "[1]", "[-1]", "[99999999999]", "[2147483647]", "[2147483648]", "[4294967295]", "[4294967296]", "[9223372036854775806]", "[9223372036854775807]", "[9223372036854775808]", "[18446744073709551615]", "[18446744073709551616]", "[+1]", "[01]", "[1e3]", "[0x1]", "[x]", "[]", "*", ":", "::", "!", "!:", ":*", ":x", "x:", "-", "#text", " ", "a.b", "a[0", "0]", "|", ":bool", ":num", ":string", "true:bool", "1e999:num", "\x00", "é"}
 
 func genArgString(t *rapid.T, label string) string {
 	n := rapid.IntRange(0, 5).Draw(t, label+"n")
